@@ -1,8 +1,9 @@
 (* C07 oracle: evaluates the extracted SPECIFICATION of the zigzag barcode (coq/C07_Model.v) and the models of the
    filtered front-ends on the case lines of harness/c07_drv.cpp and prints the same per-arrow observations, followed by
-     ## bars=<index barcode k,b,d;...>  valid=<0|1>  betti=<0|1>  po=<0|1|->  fullres=<0|1|->  mnn=<0|1>
+     ## bars=<index barcode k,b,d;...>  valid=<0|1>  betti=<0|1>  po=<0|1|->  fullres=<0|1|->  mnn=<0|1>  kok=<0|1>
    betti   : for every arrow i and dimension k, the number of bars alive at i equals the Betti number of K_i (by ranks)
    mnn     : no multiplicity r(b,e)-r(b-1,e)-r(b,e+1)+r(b-1,e+1) is negative (hypothesis of C07_alive_count_is_rank_at_i)
+   kok     : keyed_ok (hypothesis of C07_ignored_dimensions): keys not re-inserted while bound, boundary keys name present cells of dim-1
    po      : insertion-only sequence: the barcode equals the certified ordinary persistence pairing (coq/ReduceExec.v)
    fullres : with_storage + dimmax: bars of kept dimensions of the skipped sequence = those of the full sequence *)
 let zs = string_of_z
@@ -87,8 +88,8 @@ let case_line line =
         if same_multiset (List.map bar_str (keep full)) (List.map bar_str (keep bs)) then "1" else "0" end
       else "-" in
     let mnn = List.for_all (fun k -> mult_nonneg s k) (dims s) in
-    Printf.sprintf "%s ## bars=%s valid=%s betti=%s po=%s fullres=%s mnn=%s" segs (join true (List.map bar_str bs))
-      (bstr v) (bstr betti_ok) po fullres (bstr mnn)
+    Printf.sprintf "%s ## bars=%s valid=%s betti=%s po=%s fullres=%s mnn=%s kok=%s" segs (join true (List.map bar_str bs))
+      (bstr v) (bstr betti_ok) po fullres (bstr mnn) (bstr (keyed_ok ops))
 
 let () =
   iter_lines (fun line ->
